@@ -282,6 +282,16 @@ fn run_board(prop: Prop, tier: Tier) -> i32 {
         fams.push(json!({"family": sf.name(), "index_space": sf.len(), "legal_members": n, "flipped_members": n2, "secs": t0.elapsed().as_secs_f64()}));
     }
 
+    // STAR: up to eight absolute pins around one king
+    if matches!(prop, Prop::C01 | Prop::C05 | Prop::C03) {
+        let t0 = Instant::now();
+        let fam = Star;
+        let sf = Strided(&fam, if tier == Tier::Quick { 7 } else { 1 });
+        let n = for_family(&sf, &|p| visit(&ctx, p));
+        let n2 = for_family(&Flipped(&sf), &|p| visit(&ctx, p));
+        fams.push(json!({"family": sf.name(), "index_space": sf.len(), "legal_members": n, "flipped_members": n2, "secs": t0.elapsed().as_secs_f64()}));
+    }
+
     // KINGRING: crowded kings
     if matches!(prop, Prop::C01 | Prop::C05 | Prop::C14) || (prop == Prop::C02 && tier == Tier::Thorough) {
         let t0 = Instant::now();
